@@ -28,6 +28,7 @@ var families = map[string]genFn{
 	"log": genLog,
 	"routes": genRoutes,
 	"status": genStatus,
+	"forge":  genForge,
 }
 
 func main() {
